@@ -1014,7 +1014,12 @@ impl<'g, 'r> ProgGen<'g, 'r> {
                 // sometimes shadow an outer name
                 let name = if self.g.chance(1, 5) {
                     let vis = self.visible_scalars(fc, None, true);
-                    let cands: Vec<&(String, Ty)> = vis.iter().filter(|(n, _)| n != "X" && n != "Y").collect();
+                    // redeclaring a parameter in the outermost block of its function is not valid C
+                    let outermost = fc.scopes.len() == 1;
+                    let cands: Vec<&(String, Ty)> = vis
+                        .iter()
+                        .filter(|(n, _)| n != "X" && n != "Y" && !(outermost && fc.params.iter().any(|p| &p.name == n)))
+                        .collect();
                     if cands.is_empty() {
                         self.fresh("l")
                     } else {
